@@ -757,6 +757,11 @@ func (st *State) step(in ssa.Instruction) {
 					return
 				}
 			}
+			for _, fv := range st.fr.fn.FreeVars {
+				if fv.Name() == name {
+					return // contracts of closures name their captured variables (addresses); uses do not rebind them
+				}
+			}
 			if x.IsAddr {
 				if pv, ok := st.fr.vals[x.X].(PtrV); ok {
 					st.fr.names["&"+name] = pv
